@@ -170,7 +170,7 @@ pub fn strategy() -> BoxedStrategy<Case> {
                 let target = (m as i64 + d as i64).max(2) as u32;
                 steps.push(fit(Kind::Disc, target, 0));
             }
-            let io = IoCfg { read_chunks: vec![], write_chunks, pend_first: false };
+            let io = IoCfg { read_chunks: vec![], write_chunks, pend_first: false, read_cuts: vec![] };
             let mut conns = vec![ConnScript {
                 connect: ConnectSpec { props: ConnackProps { max_packet: max, ..ConnackProps::default() }, io: io.clone(), ..ConnectSpec::default() },
                 steps,
